@@ -59,11 +59,11 @@ def pick(hists, n, rnd):
 def run(ctx):
     r = ctx.tlc("ServerChoice", ctx.pick("ServerChoice.cfg", "ServerChoice_full.cfg"), timeout=1500)
     ctx.log("ServerChoice.tla: %d states (exhaustive, small bounds)" % r.distinct)
-    rs = ctx.tlc("ServerChoice", "ServerChoice_export.cfg", simulate=ctx.pick(450, 5000), depth=12, workers=1,
+    rs = ctx.tlc("ServerChoice", "ServerChoice_export.cfg", simulate=ctx.pick(350, 5000), depth=12, workers=1,
                  count=False, timeout=1500)
     hists = rs.printed_json("HIST")
     rnd = random.Random(ctx.seed)
-    hists = pick(hists, ctx.pick(220, 1500), rnd)
+    hists = pick(hists, ctx.pick(160, 1500), rnd)
     ctx.log("exported %d histories for replay (%d with >= 2 attempts predicted)"
             % (len(hists), sum(1 for h in hists if len(h["log"]) >= 2)))
     with open(ctx.path("hist.json"), "w") as fh:
